@@ -213,6 +213,40 @@ fn product_f64(d: &mut Draw) -> Outcome {
                 "inverse-f64", "{} = {:?} for q = {:?} (|q|^2 = {:e})", name, r, q, qnorm2(&q));
         }
     }
+    // Product / Sum over lists are the plain left folds - also for quaternions that are unit only *nearly* (scaled by
+    // 1 + 1e-12 .. 1e-4), where nothing may be "corrected"
+    {
+        let delta = d.f64_slog(1e-12, 1e-4);
+        let near = fnormalize4(&p);
+        let nq = mk_q(&[near[0] * (1.0 + delta), near[1] * (1.0 + delta), near[2] * (1.0 + delta), near[3] * (1.0 + delta)]);
+        d.note("nearly unit quaternion", &nq);
+        for list in [vec![nq], vec![nq, cq], vec![cp, nq, cq], vec![nq, nq, nq, nq]] {
+            let mut fp = Quaternion::<f64>::one();
+            let mut fs = Quaternion::<f64>::zero();
+            for x in &list {
+                fp = fp * *x;
+                fs = fs + *x;
+            }
+            let (pv, pr): (Quaternion<f64>, Quaternion<f64>) = (list.iter().cloned().product(), list.iter().product());
+            let (sv, sr): (Quaternion<f64>, Quaternion<f64>) = (list.iter().cloned().sum(), list.iter().sum());
+            let same = |x: &Quaternion<f64>, y: &Quaternion<f64>| rq(x).iter().zip(rq(y).iter()).all(|(a, b)| a.to_bits() == b.to_bits() || (a.is_nan() && b.is_nan()));
+            ensure!(same(&pv, &fp) && same(&pr, &fp), "product-fold-f64", "Product over {} quaternions is {:?} / {:?}, the left fold from one() gives {:?}", list.len(), pv, pr, fp);
+            ensure!(same(&sv, &fs) && same(&sr, &fs), "sum-fold-f64", "Sum over {} quaternions is {:?} / {:?}, the left fold from zero() gives {:?}", list.len(), sv, sr, fs);
+        }
+        // a nearly unit quaternion is still inverted exactly: q * invert(q) = 1
+        let inv = cgmath::Rotation::invert(&nq);
+        let r = rq(&(nq * inv));
+        ensure!((r[0] - 1.0).abs() <= 32.0 * f64::EPSILON && r[1].abs() + r[2].abs() + r[3].abs() <= 32.0 * f64::EPSILON, "inverse-near-unit-f64", "q * invert(q) = {:?} for the nearly unit q = {:?}", r, nq);
+        // and rotates like the formula says (no renormalisation on the way)
+        let qa = rq(&nq);
+        let qv = [qa[1], qa[2], qa[3]];
+        let inner = add3(&cross3(&qv, &v), &scale3(&v, qa[0]));
+        let wantv = add3(&v, &scale3(&cross3(&qv, &inner), 2.0));
+        let gotv = v3(nq * Vector3::from(v));
+        for i in 0..3 {
+            ensure!((gotv[i] - wantv[i]).abs() <= 64.0 * f64::EPSILON * (v[0].abs() + v[1].abs() + v[2].abs()) + 1e-300, "q*v-near-unit-f64", "component {} of q*v is {:e}, reference {:e} for the nearly unit q", i, gotv[i], wantv[i]);
+        }
+    }
     // scalar on the left (primitive floats only) and the remaining scalar forms: exact per component
     let k = if class == 2 { 1.5 } else { d.f64_slog(1e-3, 1e3) };
     let left = rq(&(k * cp));
